@@ -543,7 +543,16 @@ func checkInterest(val *Interest, context *InterestParsingContext) error {
 	if val.SignatureValue != nil && val.ApplicationParameters == nil {
 		return enc.ErrIncorrectDigest
 	}
-	if val.ApplicationParameters != nil {
+	if val.ApplicationParameters == nil {
+		// A ParametersSha256DigestComponent vouches for an ApplicationParameters element.
+		// Without that element (e.g. its type number was altered in transit and the
+		// element skipped as unknown) the digest cannot match anything.
+		for _, c := range val.NameV {
+			if c.Typ == enc.TypeParametersSha256DigestComponent {
+				return enc.ErrIncorrectDigest
+			}
+		}
+	} else {
 		// Check digest
 		name := val.NameV
 		if len(name) == 0 || name[len(name)-1].Typ != enc.TypeParametersSha256DigestComponent {
